@@ -10,7 +10,7 @@ from tools import execdriver
 
 UNIT = u = Unit('index_exec', ['C10'], 'bounded: one generated program run per (access kind, index): in-range accesses are exact, out-of-range ones abort with status 1')
 u.expected = ['compile_expr_with_args']
-u.trusted += ['BOUNDED stand-in (not a proof): [4]u32 / []u32 / ^mut [4]u32 / [3][4]u32, read and write, indices 0..len+4 of type usize and u8; #unwrap of a 3-variant enum, ?u32, ?^u32 and str!u32; that no out-of-range access happens BEFORE the abort is observed only as: no crash, guards intact, nothing printed after the access; the host linker and core.println are trusted']
+u.trusted += ['BOUNDED stand-in (not a proof): [4]u32 / []u32 / ^mut [4]u32 / [3][4]u32, read and write, indices 0..len+4 of type usize and u8; arrays of zero-sized elements (directly and through a pointer); #unwrap of a 3-variant enum, ?u32, ?^u32 and str!u32; that no out-of-range access happens BEFORE the abort is observed only as: no crash, guards intact, nothing printed after the access; the host linker and core.println are trusted']
 
 ARR = [10, 11, 12, 13]
 NEST = [[0, 1, 2, 3], [10, 11, 12, 13], [20, 21, 22, 23]]
@@ -18,6 +18,12 @@ NEST = [[0, 1, 2, 3], [10, 11, 12, 13], [20, 21, 22, 23]]
 PROGRAM = '''core :: #mod("core");
 
 E :: enum { A: u32, B: u64, C };
+Z :: struct {};
+
+idx_of :: (i: usize) -> usize {
+    core.println("index evaluated");
+    i
+}
 
 show :: (a: [4]u32, before: u32, after: u32) {
     core.println("wrote ", a[0], " ", a[1], " ", a[2], " ", a[3], " ", before, " ", after);
@@ -96,6 +102,15 @@ main :: () {
         r := if i == 0 { good } else { bad };
         v := #unwrap(r, str);
         core.println("unwrapped ", v);
+    } else if kind == 17 {
+        zs : [3]Z;
+        v := zs[idx_of(i)];
+        core.println("read zero-sized");
+    } else if kind == 18 {
+        zs : [3]Z;
+        pz := ^zs;
+        v := pz[i];
+        core.println("read zero-sized");
     }
 }
 '''
@@ -154,6 +169,10 @@ def runs():
             add(8, i, abort('index out of bounds'), 'nested inner write')
     for i in range(0, 8):
         add(7, i, ok_lines(['read %d' % NEST[i][1]]) if i < 3 else abort('index out of bounds'), 'nested outer read')
+    for i in range(0, 8):
+        # elements without bytes: nothing is loaded, but the index is evaluated and checked all the same
+        add(17, i, ok_lines(['index evaluated', 'read zero-sized']) if i < 3 else abort('index out of bounds'), 'array of zero-sized elements')
+        add(18, i, ok_lines(['read zero-sized']) if i < 3 else abort('index out of bounds'), 'pointer to an array of zero-sized elements')
     for i in range(0, 3):
         add(10, i, ok_lines(['unwrapped 5']) if i == 0 else abort('#unwrap'), 'enum unwrap A')
         add(11, i, ok_lines(['unwrapped 6']) if i == 1 else abort('#unwrap'), 'enum unwrap B')
